@@ -425,8 +425,9 @@ DESCRIPTION
 int
 Hclose(int32 file_id)
 {
-    filerec_t *file_rec; /* file record pointer */
-    int        ret_value = SUCCEED;
+    filerec_t *file_rec;               /* file record pointer */
+    int        close_status = SUCCEED; /* result of closing the stream */
+    int        ret_value    = SUCCEED;
 
     /* Clear errors and check args and all the boring stuff. */
     HEclear();
@@ -438,7 +439,8 @@ Hclose(int32 file_id)
 
     /* version tags */
     if ((file_rec->refcount > 0) && (file_rec->version.modified == 1))
-        HIupdate_version(file_id);
+        if (HIupdate_version(file_id) == FAIL)
+            HGOTO_ERROR(DFE_INTERNAL, FAIL);
 
     /* decrease the reference count */
     if (--file_rec->refcount == 0) {
@@ -455,8 +457,9 @@ Hclose(int32 file_id)
             HGOTO_ERROR(DFE_INTERNAL, FAIL);
 
         /* otherwise, nothing should still be using this file, close it */
-        /* ignore any close error */
-        HI_CLOSE(file_rec->file);
+        /* a close error (buffered data that could not be written) is reported
+           once the file record has been torn down */
+        close_status = HI_CLOSE(file_rec->file);
 
         if (HTPend(file_rec) == FAIL)
             HGOTO_ERROR(DFE_INTERNAL, FAIL);
@@ -467,6 +470,9 @@ Hclose(int32 file_id)
 
     if (HAremove_atom(file_id) == NULL)
         HGOTO_ERROR(DFE_INTERNAL, FAIL);
+
+    if (close_status == FAIL)
+        HGOTO_ERROR(DFE_CANTCLOSE, FAIL);
 
 done:
     return ret_value;
@@ -3566,9 +3572,10 @@ Hgetntinfo(const int32 numbertype, hdf_ntinfo_t *nt_info)
 int
 hi_close_stdio(FILE **f)
 {
-    if (EOF == fclose(*f))
-        return FAIL;
+    int ret = fclose(*f);
+
+    /* the stream is gone whether or not fclose succeeded; never close it twice */
     *f = NULL;
-    return SUCCEED;
+    return (EOF == ret) ? FAIL : SUCCEED;
 }
 #endif
